@@ -28,6 +28,10 @@ thread_local! {
     // of those share one uid, so every uid maps to a list (the most recent one comes last).
     pub static ENUM_MAP: RefCell<FxHashMap<u32, Vec<Intern<Ty>>>> = RefCell::new(FxHashMap::default());
 
+    // An enum that is declared inside a generic function gets a uid of its own for every
+    // different list of payload types it is instantiated with, see `instantiated_enum_uid`
+    pub static INSTANTIATED_ENUM_UIDS: RefCell<FxHashMap<(u32, Vec<Intern<Ty>>), u32>> = RefCell::new(FxHashMap::default());
+
     pub static TYPE_NAMES: RefCell<FxHashMap<Intern<Ty>, TyName>> = RefCell::new(FxHashMap::default());
 
     pub static GLOBAL_LAMBDAS: RefCell<FxHashMap<NaiveLambdaLoc, NaiveGlobalLoc>> = RefCell::new(FxHashMap::default());
@@ -67,6 +71,22 @@ pub fn get_enum_from_variants(enum_uid: u32, variants: &[&Ty]) -> Intern<Ty> {
                 .copied()
         })
         .unwrap()
+}
+
+/// The uid of an enum that is declared inside a generic function.
+///
+/// The uid in the declaration is the same for every instantiation, but the variants of an enum
+/// only know their enum by its uid, and a variant without a payload looks the same in every
+/// instantiation: for `Tri :: (comptime T: type) -> type { enum { A: T, B, C } }` nothing told
+/// the `B` of `Tri(i64)` from the `B` of `Tri(bool)`, so `if c { TB.B } else { TB.C }` was
+/// typed as whichever instantiation happened to be inferred last. Every different list of
+/// payload types gets a uid of its own (counting down from the top, the uids of declarations
+/// count up from zero); instantiating with the same types again gives the same enum.
+pub fn instantiated_enum_uid(decl_uid: u32, payload_tys: Vec<Intern<Ty>>) -> u32 {
+    INSTANTIATED_ENUM_UIDS.with_borrow_mut(|uids| {
+        let next = u32::MAX - uids.len() as u32;
+        *uids.entry((decl_uid, payload_tys)).or_insert(next)
+    })
 }
 
 #[track_caller]
